@@ -1,7 +1,7 @@
 (* MMRound.v — the parse / round-trip theorem for METAMODEL-valid values:
    Link.cvalid_pvalid (metamodel validity => Python-side validity, through the image relation W_img establishes)
    composed with HookFrag.covered_roundtrip (Python-side validity => parses, well-typed, serialises back up to nulls). *)
-From LSP Require Import Base MM Sem SemThy Denote PtyEq RoundTrip HookFrag Image ImageThy Link.
+From LSP Require Import Base MM Sem SemThy Denote PtyEq RoundTrip HookFrag Image ImageThy Link Ext.
 
 Section MMRound.
 Variable mm : MM.
@@ -48,6 +48,37 @@ Corollary mm_roundtrip_literal ps0 c fs j : lookup_cls Sg c = Some fs -> find_st
 Proof.
   intros L NS CB G V. destruct (names_ok_sound mm H_names) as [N1 [N2 [N3 N4]]]. destruct (fields_ok2_sound Sg H_fields) as [F1 F2].
   apply (covered_roundtrip Sg py_str (NLmm mm) GC GU H_table H_hooks (PyCls c) j); [unfold okty; cbn [flat_ty handled andb]; exact G|].
+  exact (lit_pvalid mm Sg alias_objects plain_classes H_img F1 F2 N1 N2 N3 N4 ps0 c fs j L NS CB V).
+Qed.
+
+(* forward compatibility (C15) at every depth, for metamodel-valid values: unknown properties (names outside D) added to the protocol
+   objects of a valid value (LSP.Ext.xt) do not change what is structured, and that value serialises to the un-extended input *)
+Variable D : list string.
+Hypothesis H_decl : names_declared Sg D = true.
+Theorem mm_ext T j p k n : cvalid mm T j -> wfp p = true -> smatch mm Sg alias_objects k (py_of mm n T) p = true ->
+  okty Sg GC GU p = true -> forall j', xt Sg (NLmm mm) D p j j' ->
+  exists n' o jj, structure Sg py_str n' p j = Ok o /\ structure Sg py_str n' p j' = Ok o /\ has_type Sg p o /\
+                  unstr Sg n' (Some p) o = Ok jj /\ NEq j jj.
+Proof.
+  intros V W M O j' X. exact (ext_same_result Sg py_str (NLmm mm) GC GU D H_table H_hooks H_decl p j O (mm_pvalid T j p k n V W M) j' X).
+Qed.
+Corollary mm_ext_structure s st j : find_struct mm s = Some st -> String.eqb s "LSPObject" = false -> mem s GC = true ->
+  cvalid mm (TRef s) j -> forall j', xt Sg (NLmm mm) D (PyCls s) j j' ->
+  exists n' o jj, structure Sg py_str n' (PyCls s) j = Ok o /\ structure Sg py_str n' (PyCls s) j' = Ok o /\ has_type Sg (PyCls s) o /\
+                  unstr Sg n' (Some (PyCls s)) o = Ok jj /\ NEq j jj.
+Proof.
+  intros F O G V. destruct (names_ok_sound mm H_names) as [N1 _].
+  apply (mm_ext (TRef s) j (PyCls s) 1 1 V); [reflexivity | | unfold okty; cbn [flat_ty handled andb]; exact G].
+  cbn [Image.py_of]. rewrite (N1 s st F), O, F. cbn [Image.smatch]. apply String.eqb_refl.
+Qed.
+Corollary mm_ext_literal ps0 c fs j : lookup_cls Sg c = Some fs -> find_struct mm c = None ->
+  corrw_b mm Sg alias_objects (props_of_lit ps0) fs = true -> mem c GC = true -> cvalid mm (TLit ps0) j ->
+  forall j', xt Sg (NLmm mm) D (PyCls c) j j' ->
+  exists n' o jj, structure Sg py_str n' (PyCls c) j = Ok o /\ structure Sg py_str n' (PyCls c) j' = Ok o /\ has_type Sg (PyCls c) o /\
+                  unstr Sg n' (Some (PyCls c)) o = Ok jj /\ NEq j jj.
+Proof.
+  intros L NS CB G V. destruct (names_ok_sound mm H_names) as [N1 [N2 [N3 N4]]]. destruct (fields_ok2_sound Sg H_fields) as [F1 F2].
+  apply (ext_same_result Sg py_str (NLmm mm) GC GU D H_table H_hooks H_decl (PyCls c) j); [unfold okty; cbn [flat_ty handled andb]; exact G|].
   exact (lit_pvalid mm Sg alias_objects plain_classes H_img F1 F2 N1 N2 N3 N4 ps0 c fs j L NS CB V).
 Qed.
 End MMRound.
